@@ -257,7 +257,7 @@ class Run:
         rng = self.ctx.rng
         m = self.m
         kind = rng.choice(["define", "define", "define", "redefine", "unknown_vid", "delete_one", "delete_one", "delete_undefined",
-                           "delete_all", "multi_ok", "multi_bad", "dup_in_message", "define_and_delete"])
+                           "delete_all", "multi_ok", "multi_bad", "dup_in_message", "define_and_delete", "delete_and_bad_define"])
         entries = []
         free = [r for r in RPTIDS if r not in m.reports]
         have = list(m.reports)
@@ -293,6 +293,16 @@ class Run:
             entries = [(r, vids()), (r, vids())]
         elif kind == "define_and_delete" and have and free:
             entries = [(rng.choice(free), vids()), (rng.choice(have), [])]
+        elif kind == "delete_and_bad_define" and have:
+            # a deletion next to a definition that must be refused: the whole request is refused, nothing is deleted
+            victim = rng.choice(have)
+            bad = (rng.choice(free), vids() + [UNKNOWN_VID]) if free and rng.random() < 0.6 else \
+                (rng.choice([r for r in have if r != victim] or [victim]), vids())
+            if bad[0] == victim:
+                return
+            entries = [(victim, []), bad]
+            rng.shuffle(entries)
+            self.ctx.count("request.delete_next_to_a_refused_definition")
         else:
             return
         body = e5ref.encode(("L", [("U4", [1]), ("L", [("L", [idt(r), ("L", [idt(v) for v in vs])]) for r, vs in entries])]))
